@@ -138,6 +138,12 @@ Theorem C16_current_dense_row_builders_wf : wf_builders_fx nnz_fix false row_bui
 Proof. exact eq_refl. Qed.
 Print Assumptions C16_current_dense_row_builders_wf.
 
+(* sparse Jacobian: with the repairs found in make_constraint (nnz_fix) every row builder is
+   well-formed -- the njmax_nnz class (F2) is repaired in the current tree *)
+Theorem C16_current_sparse_row_builders_wf : wf_builders_fx nnz_fix true row_builders = true.
+Proof. exact eq_refl. Qed.
+Print Assumptions C16_current_sparse_row_builders_wf.
+
 (* the probes of forward._next_time / _compact_dofs are the ones the model copies *)
 Theorem C16_current_probes_match_model : probes_eqb overflow_probes expected_probes = true.
 Proof. exact eq_refl. Qed.
@@ -159,7 +165,26 @@ Theorem C16_never_silent_current_tree :
 Proof. exact (fun sparse => never_silent_fx nnz_fix row_builders slot_builders sparse collision_zero_cap_skip C16_current_fix_ok). Qed.
 Print Assumptions C16_never_silent_current_tree.
 
-(* ---- refutations (explicit builder values; replayed on the real code by bin/props/C16.py) ---- *)
+(* never-silent for the current tree, unconditionally (dense and sparse), whenever the collision
+   pipeline is launched; the remaining exception is [C16_never_silent_refuted_nacon0] *)
+Theorem C16_never_silent_current_tree_holds :
+  forall sparse c adr0 rnz0 ov0 rq,
+    collision_runs collision_zero_cap_skip c ->
+    requests_use_fx row_builders slot_builders rq -> meta_ok (njmax c) sparse adr0 rnz0 ->
+    dropped (run_builders nnz_fix collision_zero_cap_skip c sparse adr0 rnz0 ov0 rq) = true ->
+    overflow_any (run_builders nnz_fix collision_zero_cap_skip c sparse adr0 rnz0 ov0 rq) = true.
+Proof.
+  exact (fun sparse =>
+    never_silent_fx nnz_fix row_builders slot_builders sparse collision_zero_cap_skip C16_current_fix_ok
+      (match sparse as s return wf_builders_fx nnz_fix s row_builders = true with
+       | true => C16_current_sparse_row_builders_wf | false => C16_current_dense_row_builders_wf end)
+      C16_current_slot_builders_wf).
+Qed.
+Print Assumptions C16_never_silent_current_tree_holds.
+
+(* ---- refutations: explicit OLD builder values and the unrepaired scheme [nofix]; kept as
+   documentation of F1 / F2 (both repaired in the tree) and of the open naconmax = 0 finding;
+   the inputs are regression cases of bin/props/C16.py ---- *)
 
 (* F1  `if efcid >= njmax - 3: return`: one connect, njmax = 3 -> dropped, nefc = njmax, word 0 *)
 Theorem C16_never_silent_refuted_fit :
@@ -221,3 +246,12 @@ Example C16_repaired_flags_F2 :
   s_rnz (x_efc (run_builders allfix false (mkCaps 3 3 0 0) true [5;5;5] [7;7;7] 0 rq)) = [2; 2; 0] /\
   x_word (run_builders allfix false (mkCaps 3 4 0 0) true [5;5;5] [7;7;7] 0 rq) = 0.
 Proof. exact repaired_flags_F2. Qed.
+
+Example C16_repaired_flags_contact_inexact :
+  let rq1 := mkReqs [mkT contact_like [mkQ 6 0 4 6 6]; mkT contact_like [mkQ 6 1 4 6 6]; mkT contact_like [mkQ 6 2 4 6 6]] [] [] [] in
+  let rq2 := mkReqs [mkT inexact_like [mkQ 0 0 0 2 2]; mkT inexact_like [mkQ 0 1 0 2 1]] [] [] [] in
+  x_word (run_builders allfix false (mkCaps 64 71 0 0) true (repeat 0 64) (repeat 0 64) 0 rq1) = 2 /\
+  x_word (run_builders allfix false (mkCaps 64 72 0 0) true (repeat 0 64) (repeat 0 64) 0 rq1) = 0 /\
+  x_word (run_builders allfix false (mkCaps 2 3 0 0) true [0;0] [0;0] 0 rq2) = 2 /\
+  x_word (run_builders allfix false (mkCaps 2 4 0 0) true [0;0] [0;0] 0 rq2) = 0.
+Proof. exact repaired_flags_contact_inexact. Qed.
